@@ -1,0 +1,129 @@
+//go:build verif
+
+// Package verifcrash provides crash points for the verification harness
+// (build tag verif). Without the tag every function is an empty no-op.
+//
+//	VERIF_CRASH=<name>       Point(name) exits the process with status 97
+//	VERIF_CRASH=<name>:<k>   TornWrite/TornCopy(name, path, ...) leave the first k bytes in path and exit 97
+//	VERIF_CRASH_LIST=<file>  dry run: every Point/TornWrite/TornCopy reached appends "name\tlen\tpath" (len -1 for points)
+package verifcrash
+
+import (
+	"bytes"
+	"fmt"
+	"io"
+	"os"
+	"path/filepath"
+	"strconv"
+	"strings"
+)
+
+const ExitCode = 97
+
+func record(name string, n int, path string) {
+	file := os.Getenv("VERIF_CRASH_LIST")
+	if file == "" {
+		return
+	}
+	f, err := os.OpenFile(file, os.O_APPEND|os.O_CREATE|os.O_WRONLY, 0o644)
+	if err != nil {
+		fmt.Fprintf(os.Stderr, "verifcrash: cannot open list file: %s\n", err)
+		os.Exit(98)
+	}
+	fmt.Fprintf(f, "%s\t%d\t%s\n", name, n, path)
+	f.Close()
+}
+
+// Point exits with status 97 when VERIF_CRASH == name.
+func Point(name string) {
+	record(name, -1, "")
+	if os.Getenv("VERIF_CRASH") == name {
+		os.Exit(ExitCode)
+	}
+}
+
+func tornLen(name string) (int, bool) {
+	sel := os.Getenv("VERIF_CRASH")
+	if !strings.HasPrefix(sel, name+":") {
+		return 0, false
+	}
+	k, err := strconv.Atoi(sel[len(name)+1:])
+	if err != nil || k < 0 {
+		return 0, false
+	}
+	return k, true
+}
+
+// TornWrite is called immediately before path is (over)written with data. When
+// VERIF_CRASH == name+":"+k it creates/truncates path, writes data[:k], syncs and exits 97.
+func TornWrite(name, path string, data []byte) {
+	record(name, len(data), path)
+	k, ok := tornLen(name)
+	if !ok {
+		return
+	}
+	if k > len(data) {
+		k = len(data)
+	}
+	f, err := os.OpenFile(path, os.O_WRONLY|os.O_CREATE|os.O_TRUNC, 0o644)
+	if err != nil {
+		fmt.Fprintf(os.Stderr, "verifcrash: cannot open %s: %s\n", path, err)
+		os.Exit(98)
+	}
+	f.Write(data[:k])
+	f.Sync()
+	f.Close()
+	os.Exit(ExitCode)
+}
+
+// TornCopy is called immediately before src is copied into the (already created) file dstPath.
+// It returns a reader with the same content as src. When VERIF_CRASH == name+":"+k it
+// writes the first k bytes to dstPath, syncs and exits 97.
+func TornCopy(name, dstPath string, src io.ReadCloser) io.ReadCloser {
+	_, sel := tornLen(name)
+	if os.Getenv("VERIF_CRASH_LIST") == "" && !sel {
+		return src
+	}
+	data, err := io.ReadAll(src)
+	if err != nil {
+		fmt.Fprintf(os.Stderr, "verifcrash: cannot read source of %s: %s\n", dstPath, err)
+		os.Exit(98)
+	}
+	TornWrite(name, dstPath, data)
+	return io.NopCloser(bytes.NewReader(data))
+}
+
+// TornExtracted is called immediately after a third-party step (unarchiving) has written files
+// into dir. It stands for a crash in the middle of that step: for every regular file below dir
+// (except the names in skip) it offers the crash "name/<relative path>:k", which truncates that
+// file to its first k bytes (mode unchanged) and exits 97.
+func TornExtracted(name, dir string, skip ...string) {
+	sel := os.Getenv("VERIF_CRASH")
+	if os.Getenv("VERIF_CRASH_LIST") == "" && !strings.HasPrefix(sel, name+"/") {
+		return
+	}
+	filepath.Walk(dir, func(path string, info os.FileInfo, err error) error {
+		if err != nil || !info.Mode().IsRegular() {
+			return nil
+		}
+		rel, _ := filepath.Rel(dir, path)
+		for _, s := range skip {
+			if rel == s {
+				return nil
+			}
+		}
+		sub := name + "/" + filepath.ToSlash(rel)
+		record(sub, int(info.Size()), path)
+		if k, ok := tornLen(sub); ok {
+			if int64(k) > info.Size() {
+				k = int(info.Size())
+			}
+			if err := os.Truncate(path, int64(k)); err != nil {
+				fmt.Fprintf(os.Stderr, "verifcrash: cannot truncate %s: %s\n", path, err)
+				os.Exit(98)
+			}
+			os.Exit(ExitCode)
+		}
+		return nil
+	})
+}
